@@ -20,7 +20,7 @@ def open_tree(path, stop):
         p = os.path.dirname(p)
 
 
-def run_cases(b, cases, workdir, fmt=b"%{uid}/%{euid}:%{cmdline}"):
+def run_cases(b, cases, workdir, fmt=b"%{uid}/%{euid}:%{cmdline}", overflow=False):
     """cases: list of (label, chain bytes, ruid, euid, tty bool). -> {label: dict(logged=bool, other_output=..., n_real=int, crashed=...)}"""
     workers = c.NCPU
     batches = [cases[i::workers] for i in range(workers)]
@@ -37,13 +37,21 @@ def run_cases(b, cases, workdir, fmt=b"%{uid}/%{euid}:%{cmdline}"):
         os.chmod(ctx.log, 0o666)
         s = drv.Script().add("childtimeout", 10)
         s.add("sinkfile", "file", drv.hx(ctx.log)).add("sinkstd").add("sinkdevlog", "devlog", drv.hx(ctx.devlog)).add("ptypair")
-        s.path(ctx.helper).argv([b"prog", b"x"]).envp([b"A=1"]).add("ret", -1, 2).add("snap", 0)
+        s.path(ctx.helper).argv([b"prog", b"x" * 300] if overflow else [b"prog", b"x"]).envp([b"A=1"]).add("ret", -1, 2).add("snap", 0)
         for label, chain, ruid, euid, tty in batches[i]:
             ini = b'[snoopy]\nmessage_format = "' + fmt + b'"\noutput = file:' + ctx.log + b'\nfilter_chain = "' + chain + b'"\n'
             if sum(label.encode()) % 2:
                 ini += b"error_logging = yes\n"        # a dropped call stays silent with error logging on, too
+            h = sum(label.encode())
+            if overflow and h % 4 == 1:            # the message does not fit: formatting it raises an error, which must stay silent for a dropped call too
+                ini += b"log_message_max_length = 255\n"
             s.add("emit", "item:" + label).add("fork")
-            s.add("stdin", "pty" if tty else "null").add("ini", drv.hx(ini))
+            s.add("stdin", "pty" if tty else "null")
+            # an earlier call of the same process, decided the other way or the same way, must not influence this one:
+            # first a call under a chain that drops everybody (or, every other case, under no chain at all)
+            pre = b'[snoopy]\nmessage_format = "earlier call"\noutput = file:' + ctx.log + (b'\nfilter_chain = "only_uid:4294967294"\n' if h % 2 == 0 else b"\n")
+            s.add("ini", drv.hx(pre)).add("quiet", 1).call("execve", "earlier").add("quiet", 0).add("drain", "earlier:" + label)
+            s.add("ini", drv.hx(ini))
             if ruid is not None:
                 s.add("gids", 4243, 4243, 4243).add("ids", ruid, euid, ruid)
             s.call("execve", label).add("endfork").add("drain", "post:" + label)
